@@ -387,7 +387,7 @@ def do_check(run: Run, args):
     if total_obl == 0 and not run.bounded_rows:
         run.checker_errors.append("zero obligations generated")
     base = load_baseline().get(run.pid)
-    if base is not None and not args.only:
+    if base is not None and not args.only and not args.write_baseline:
         have = {r["id"] for r in run.clause_rows} | set(run.reached) | {f"{x['function']}.{x['cover']}" for x in run.cover_rows}
         gone = [b for b in base if b not in have and not any(b.startswith(f["function"] + ".") for f in run.functions if f["status"] != "under contract")]
         if gone:
